@@ -1,5 +1,6 @@
 import Driver.HTable
 import Driver.Mutex
+import Driver.Cond
 import Driver.Ledger
 import Driver.TQ
 import Driver.Atoi
@@ -22,6 +23,8 @@ def main (args : List String) : IO UInt32 := do
   match args with
   | ["htable"] => Driver.HTable.main; return 0
   | ["mutex"] => Driver.Mutex.main; return 0
+  | ["cond"] => Driver.Cond.mainCond; return 0
+  | ["waitlist"] => Driver.Cond.mainWl; return 0
   | ["ledger"] => Driver.Ledger.main; return 0
   | ["tq"] => Driver.TQ.mainTQ; return 0
   | ["pool", kind] => Driver.TQ.mainPool kind
